@@ -75,6 +75,8 @@ func pure(e ast.Expr) bool {
 		return pure(t.X)
 	case *ast.ParenExpr:
 		return pure(t.X)
+	case *ast.IndexExpr:
+		return pure(t.X) && pure(t.Index)
 	}
 	return false
 }
